@@ -71,6 +71,42 @@ Theorem C15_gen_handler_nest : forall zero growcap grp ops fields heap,
     /\ (res = fields \/ (let '(a, _, _, _) := res in (length heap <= a)%nat)).
 Proof. exact GenAdaptP.gen_handler_nest. Qed.
 Print Assumptions C15_gen_handler_nest.
+Require Verif.Model.BridgeRef Verif.Gen.Bridge Verif.Proofs.GenBridgeP.
+
+(* ---- the std-log bridge: NewLogLogger and handlerWriter.Write are translated whole (Gen/Bridge.v).  The flags word,
+   the logger's level, the package level and io.Discard are part of the fragment of NewLogLogger, so that a decision
+   taken at construction time is a different value and not a fall-back. ---- *)
+
+(* NewLogLogger(h, lvl) hands log.New a writer that REMEMBERS the logger and the severity and nothing else: it always
+   captures the program counter, has no extra frames, no prefix, no std-log flags - whatever the flags word, the level of
+   the logger or of the package, the answer of the logger's gate and its skip count are when it is built *)
+Theorem C15_gen_new_log_logger : forall f_level enabled_then skip_then flags deflevel h lvl,
+  Bridge.new_log_logger f_level enabled_then skip_then flags deflevel h lvl = BridgeRef.mk_bridge (h, lvl, true, 0) [] 0.
+Proof. exact GenBridgeP.gen_new_log_logger. Qed.
+Print Assumptions C15_gen_new_log_logger.
+
+(* Write(buf): the logger is asked at WRITE time whether it admits the bridge severity; if so (and it can take raw
+   bytes) exactly one WriteInternal at that severity with the bytes as they are and the program counter of depth 4 +
+   extraFrames + the logger's skip count (0 when capturePC is off); its results are handed back; otherwise nothing *)
+Theorem C15_gen_bridge_write : forall f_enabled f_skip f_getpc as_aware w_n w_e l lvl capture extra buf tr,
+  Bridge.bridge_write f_enabled f_skip f_getpc as_aware w_n w_e l lvl capture extra buf tr =
+  if f_enabled l lvl
+  then match as_aware l with
+       | Some h => (w_n, w_e, tr ++ [BridgeRef.BWInternal h lvl (if capture then f_getpc 4 (extra + f_skip l) else 0) buf])
+       | None => (0, None, tr)
+       end
+  else (0, None, tr).
+Proof. exact GenBridgeP.gen_bridge_write. Qed.
+Print Assumptions C15_gen_bridge_write.
+
+(* writeInternal(ctx, lvl, pc, buf), what the bridge's Write ends in: no index or slice expression panics; n is the whole
+   length of buf; exactly one record is printed, at lvl, the current instant and pc, without attributes, whose message is
+   buf minus ONE final line feed - [strip_lf] of the model, which takes off nothing else (no CR, no second LF) *)
+Theorem C15_gen_write_internal : forall trim_right trim_suffix now lvl pc buf tr,
+  Bridge.write_internal trim_right trim_suffix now lvl pc buf tr =
+  Some (Z.of_nat (length buf), None, tr ++ [BridgeRef.BWPrint lvl now pc (strip_lf buf)]).
+Proof. exact GenBridgeP.gen_write_internal_model. Qed.
+Print Assumptions C15_gen_write_internal.
 
 
 (* ---- ties: the five decision functions translated from the source equal the
